@@ -106,6 +106,16 @@ CLAIMED = {
             "that model predicts them.",
             "Graphs beyond 4 types are not enumerated; uninhabited or dangling types the root cannot reach are unspecified; which of two "
             "simultaneous errors is reported is not compared.", "3/C09"),
+    "C17": ("TLA+ requirements Err!Render (line / text / caret for LF, CR, CRLF files), ErrPos!Viol (place of the first violation) and the "
+            "first-dead-byte of the JsonText automaton; TLC enumerates contents x positions, schema x document pairs, and exports the reference "
+            "graph; replay through the public errors API, Validate and Document.Check with positions compared",
+            "Rendering: every content over {a, space, tab, LF, CR} up to 5/7 bytes at every position and long lines around the 200-byte cut must "
+            "render without panic with the line number, left-trimmed text and caret column TLC computed. Validation errors: for every rejected pair "
+            "of the C01 domain Position() must be the start of the first offending value / key / enclosing object TLC located (TLC also checks the "
+            "locator against AcceptsShape). Parse errors: on the transition cover of the exported automaton Position() must be the first dead byte "
+            "(last byte at early end).",
+            "Line numbers for files mixing newline conventions, text of all-blank lines, the caret for a position inside indentation and the cut "
+            "of indented long lines are unspecified; error positions inside added types are C04's (type-local offset).", "3/C17"),
 }
 
 PENDING_REASON = "check under construction in this session - not claimed yet (no technique switch intended; see DESIGN.md section 3)"
